@@ -11,6 +11,8 @@ use std::collections::BTreeMap;
 
 pub const W2N: &str = "id: w2n\nsteps:\n  - id: s1\n    branches:\n      - id: b1\n        if: \"true\"\n        steps:\n          - id: s11\n            acts:\n              - uses: acts.core.irq\n                key: a1\n      - id: b2\n        if: \"true\"\n        steps:\n          - id: s21\n            branches:\n              - id: b21\n                if: \"true\"\n                steps:\n                  - id: s211\n                    acts:\n                      - uses: acts.core.irq\n                        key: a2\n  - id: s2\n";
 pub const W5: &str = "id: w5\nsteps:\n  - id: s1\n    acts:\n      - uses: acts.core.irq\n        key: a1\n        outputs:\n          x:\n          y:\n  - id: s2\n    acts:\n      - uses: acts.core.irq\n        key: a2\n";
+/// rework loop: the guarded branch increments `a` and jumps back to the first step
+pub const WJ: &str = "id: wj\ninputs:\n  a: 0\nsteps:\n  - id: s1\n    acts:\n      - uses: acts.core.irq\n        key: a1\n  - id: s2\n    branches:\n      - id: b1\n        if: a < 1\n        steps:\n          - id: s21\n            next: s1\n            acts:\n              - uses: acts.transform.set\n                params:\n                  a: '{{ a + 1 }}'\n      - id: b2\n        else: true\n        steps:\n          - id: s22\n  - id: s3\n";
 /// two irq acts in one branch, one in the sibling
 pub const W2B: &str = "id: w2b\nsteps:\n  - id: s1\n    branches:\n      - id: b1\n        if: \"true\"\n        steps:\n          - id: s11\n            acts:\n              - uses: acts.core.irq\n                key: a1\n              - uses: acts.core.irq\n                key: a3\n      - id: b2\n        if: \"true\"\n        steps:\n          - id: s21\n            acts:\n              - uses: acts.core.irq\n                key: a2\n  - id: s2\n    acts:\n      - uses: acts.core.irq\n        key: a4\n";
 
@@ -139,6 +141,12 @@ fn scenarios_of(prop: &str, tier: Tier) -> Vec<HScn> {
             }
             if !q {
                 v.push(hscn("par", W2, false, full_cfg(2), None, 48));
+            }
+            // a backward `next` jump out of a guarded branch (one round of rework)
+            for keep in [false, true] {
+                let mut c = full_cfg(if q { 2 } else { 3 });
+                c.terminal_targets = keep;
+                v.push(hscn("jump", WJ, keep, c, Some(if q { 0 } else { 1 }), 16));
             }
         }
         "C11" => {
